@@ -47,6 +47,7 @@ func newRunCommand() *cli.Command {
 			if !c.Args().Present() {
 				return fmt.Errorf("no target specified")
 			}
+			defer taskRunner.Finish()
 
 			for _, v := range c.Args().Slice() {
 				if v == "--" {
@@ -70,6 +71,8 @@ func newRunCommand() *cli.Command {
 				ArgsUsage: "task (TASK1) [TASK2]... [flags] [-- TASK_ARGS]",
 				Usage:     "run specified task(s)",
 				Action: func(c *cli.Context) error {
+					defer taskRunner.Finish()
+
 					for _, v := range c.Args().Slice() {
 						if v == "--" {
 							break
@@ -124,7 +127,6 @@ func runPipeline(g *scheduler.ExecutionGraph, taskRunner *runner.TaskRunner, sum
 	}()
 
 	err := sd.Schedule(g)
-	sd.Finish()
 	if err != nil {
 		return err
 	}
@@ -139,10 +141,7 @@ func runPipeline(g *scheduler.ExecutionGraph, taskRunner *runner.TaskRunner, sum
 }
 
 func runTask(t *task.Task, taskRunner *runner.TaskRunner) error {
-	err := taskRunner.Run(t)
-	taskRunner.Finish()
-
-	return err
+	return taskRunner.Run(t)
 }
 
 func taskArgs(c *cli.Context) []string {
